@@ -303,7 +303,7 @@ func RunEngine(t *testing.T) {
 						Detail: fmt.Sprintf("scenario %d: all goroutines of the scenario are blocked and %s", idx, detail), Scenario: map[string]any{"index": idx}, Index: int(idx)})
 					res.Counters["deadlocked_scenarios"]++
 				} else {
-					res.Inconc(fmt.Sprintf("scenario %d made no progress for %ds (wall clock) - abandoned", idx, hangSecs))
+					res.Inconc(fmt.Sprintf("scenario %d made no progress for %ds (wall clock) - abandoned [%s]", idx, hangSecs, hangSummary(string(buf[:n]))))
 				}
 				res.Counters["hung_scenarios"]++
 				res.Completed = false
@@ -470,4 +470,68 @@ func stsDeadlock(dump string) (string, string) {
 		return "", ""
 	}
 	return fn, "this goroutine waits for a lock that nobody is left to release:\n" + trimStack(waiter)
+}
+
+
+// hangSummary: who waits for a mutex, who sleeps inside sts / hook code, whether an instance
+// was crashed - the facts stsDeadlock looks at, for the note of an inconclusive hang
+func hangSummary(dump string) string {
+	maxB := -1
+	var blks []string
+	for _, blk := range strings.Split(dump, "\n\n") {
+		blk = strings.TrimSpace(blk)
+		if strings.HasPrefix(blk, "goroutine ") {
+			blks = append(blks, blk)
+			if i := strings.Index(blk, "synctest bubble "); i >= 0 {
+				b := -1
+				fmt.Sscanf(blk[i:], "synctest bubble %d", &b)
+				if b > maxB {
+					maxB = b
+				}
+			}
+		}
+	}
+	tag := fmt.Sprintf("synctest bubble %d]", maxB)
+	var out []string
+	parked := 0
+	for _, blk := range blks {
+		hdr := blk
+		if i := strings.Index(blk, "\n"); i > 0 {
+			hdr = blk[:i]
+		}
+		if !strings.Contains(hdr, tag) {
+			continue
+		}
+		st := hdr[strings.Index(hdr, "[")+1:]
+		if strings.HasPrefix(st, "select (no cases)") {
+			parked++
+			continue
+		}
+		kind := ""
+		switch {
+		case strings.HasPrefix(st, "sync.Mutex") || strings.HasPrefix(st, "sync.RWMutex") || strings.HasPrefix(st, "semacquire"):
+			kind = "mutex"
+		case strings.HasPrefix(st, "sleep"):
+			kind = "sleep"
+		case strings.HasPrefix(st, "running") || strings.HasPrefix(st, "runnable"):
+			kind = "running"
+		default:
+			continue
+		}
+		fn := ""
+		for _, ln := range strings.Split(blk, "\n") {
+			if strings.HasPrefix(ln, "github.com/arm-doe/sts/") || strings.HasPrefix(ln, "verif/harness.") {
+				fn = ln
+				if j := strings.LastIndex(fn, "("); j > 0 {
+					fn = fn[:j]
+				}
+				fn = strings.TrimPrefix(strings.TrimPrefix(fn, "github.com/arm-doe/sts/"), "verif/")
+				break
+			}
+		}
+		if fn != "" && len(out) < 6 {
+			out = append(out, kind+":"+fn)
+		}
+	}
+	return fmt.Sprintf("%s; parked=%d", strings.Join(out, ", "), parked)
 }
